@@ -84,3 +84,56 @@ fn tokio_mutex_and_notify_wake_simulated_tasks() {
         })
     });
 }
+
+#[test]
+fn join_handle_can_be_awaited_and_interval_delay_behaviour() {
+    sim(|| {
+        simrt::ctl::on_node(0, || {
+            simrt::task::block_on(async {
+                let h = tokio::spawn(async {
+                    tokio::time::sleep(Duration::from_secs(2)).await;
+                    41 + 1
+                });
+                let t0 = Instant::now();
+                assert_eq!(h.await.unwrap(), 42);
+                assert!(t0.elapsed() >= Duration::from_millis(1990));
+                let mut iv = tokio::time::interval_at(Instant::now() + Duration::from_secs(1), Duration::from_secs(1));
+                iv.set_missed_tick_behavior(tokio::time::MissedTickBehavior::Delay);
+                iv.tick().await;
+                tokio::time::sleep(Duration::from_millis(3500)).await; // miss three ticks
+                let a = Instant::now();
+                iv.tick().await; // overdue: completes at once
+                assert!(a.elapsed() < Duration::from_millis(1));
+                iv.tick().await; // Delay: one full period after the late tick
+                assert!(a.elapsed() >= Duration::from_millis(999));
+                iv.reset_at(Instant::now() + Duration::from_secs(7));
+                let b = Instant::now();
+                iv.tick().await;
+                assert!(b.elapsed() >= Duration::from_millis(6999));
+            })
+        })
+    });
+}
+
+#[test]
+fn select_with_expression_handlers() {
+    sim(|| {
+        simrt::ctl::on_node(0, || {
+            simrt::task::block_on(async {
+                let r: Result<u32, ()> = async {
+                    let v = tokio::select! {
+                        x = async { Ok::<u32, ()>(7) } => x?,
+                        _ = tokio::time::sleep(Duration::from_secs(1)) => 0,
+                    };
+                    let w = tokio::select! {
+                        _ = tokio::time::sleep(Duration::from_secs(1)) => { 1 }
+                        _ = tokio::time::sleep(Duration::from_secs(2)) => 2
+                    };
+                    Ok(v + w)
+                }
+                .await;
+                assert_eq!(r, Ok(8));
+            })
+        })
+    });
+}
